@@ -11,6 +11,7 @@ instance (and, where the conclusion is conditional, that the condition occurs).
 -/
 import ArvVerif.Proofs.C06_Scan
 import ArvVerif.Proofs.C06_Progress
+import ArvVerif.Proofs.C06_Sched
 import ArvVerif.Proofs.C06_Index
 import ArvVerif.Proofs.C06_Run
 namespace ArvVerif.C06
@@ -62,6 +63,31 @@ example : ∀ u ∈ exP, u ∈ (scan 2 exEnv (fun _ => false) none 40).st.seen :
 example : (scan 2 exEnv (fun _ => false) none 40).st.seen.reverse = [1, 2, 3, 4, 5, 6, 1, 9] := by
   decide +kernel
 end examples_a
+
+/-- The scripted form the correspondence check runs: the table starts as `db0` and `sched[k]`
+(modify / add / delete operations) is applied just before request `k`. If no operation deletes or
+re-adds a collection of `P` and modifications of `P`-collections never move modified_at backwards
+(`SchedOK`), a scan that returns nil has passed all of `P` to the callback; and it always ends within
+`|sched| + 3·|final table| + 3` page requests. -/
+theorem C06_paging_complete_sched (P : List Nat) (limit : Nat) (db0 : List Coll) (sched : List (List Op))
+    (fail : Nat → Bool) (cbFail : Option Nat) (fuel : Nat) (hl : 1 ≤ limit)
+    (hnd : (db0.map Coll.uuid).Nodup) (hP : Present P db0) (hs : SchedOK P db0 sched) :
+    ((scan limit (envOf db0 sched) fail cbFail fuel).out = .ok →
+      ∀ u ∈ P, u ∈ (scan limit (envOf db0 sched) fail cbFail fuel).st.seen) ∧
+    (sched.length + fuelBound (envOf db0 sched sched.length) ≤ fuel →
+      (scan limit (envOf db0 sched) fail cbFail fuel).out ≠ .outOfFuel) := by
+  obtain ⟨h1, h2, h3⟩ := envOf_ok sched db0 hnd hP hs
+  exact ⟨fun hok => scan_complete fail cbFail fuel hl h1 h2 h3 hok,
+    fun hf => scan_terminates hl h1 (envOf_const sched db0) hf⟩
+
+/-- the schedule of the example above: before request 3, modify 1 to a fresh timestamp, add 9, delete 2 -/
+example : SchedOK exP exDb [[], [], [], [.modify 1 9, .add 9 9, .del 2]] := by
+  simp [SchedOK, OpsOK, OpOK, applyOps, exP, exDb]
+example : Present exP exDb := by unfold Present; decide
+example : envOf exDb [[], [], [], [.modify 1 9, .add 9 9, .del 2]] 3 =
+    [⟨1, 9⟩, ⟨3, 5⟩, ⟨4, 5⟩, ⟨5, 5⟩, ⟨6, 7⟩, ⟨9, 9⟩] := by decide
+example : (scan 2 (envOf exDb [[], [], [], [.modify 1 9, .add 9 9, .del 2]]) (fun _ => false) none 40).out = .ok := by
+  decide +kernel
 
 /-- The same for any server: whatever pages are returned, as long as each is a sorted prefix of the
 filtered table (`PageOf`; the page length may differ from request to request), and with arbitrary
